@@ -164,25 +164,35 @@ def _tuple_path(f: Fn) -> Dict[str, object]:
 
 def _access_leaves(f: Fn, se, stmt_node, sub: ast.Subscript):
     """[(facts as (text, truth), base text, selector expr)] for one subscript access, on gated values: the guards of the
-    statement and every conditional inside the selector contribute facts."""
-    from fsa.gated import canon, leaves
+    statement and every conditional inside base, selector or guards contribute facts (the whole is read as one decision
+    tree, so a conditional buried in an argument - a key re-packed by a helper - splits the access like an `if` would);
+    leaves whose facts contradict each other or a guard are dropped."""
+    from fsa.gated import canon, consistent, leaves, lift_ifs
     from fsa.match import nnf_atoms
     st = stmt_node.ast
-    base = text(canon(se.value(st, sub.value)))
-    sel = canon(se.value(st, sub.slice)) if not isinstance(sub.slice, ast.Slice) else sub.slice
+    base = canon(se.value(st, sub.value))
     if isinstance(sub.slice, ast.Slice):
-        parts = [canon(se.value(st, x)) if x is not None else None for x in (sub.slice.lower, sub.slice.upper, sub.slice.step)]
-        sel = ast.Slice(lower=parts[0], upper=parts[1], step=parts[2])
-    site = []
-    for (a_, tr, _tn) in f.guard_atoms(stmt_node.id):
-        x = canon(se.value(st, a_))
-        for (a2, t2) in nnf_atoms(x, tr):
-            site.append((text(a2), t2))
+        parts = [canon(se.value(st, x)) if x is not None else ast.Constant(value=None) for x in (sub.slice.lower, sub.slice.upper, sub.slice.step)]
+        sel = ast.Call(func=ast.Name(id='<slice>', ctx=ast.Load()), args=parts, keywords=[])
+    else:
+        sel = canon(se.value(st, sub.slice))
+    guards = [(canon(se.value(st, a_)), tr) for (a_, tr, _tn) in f.guard_atoms(stmt_node.id)]
+    whole = ast.Tuple(elts=[base, sel] + [g_ for (g_, _tr) in guards], ctx=ast.Load())
     out = []
-    if isinstance(sel, ast.Slice):
-        return [(site, base, sel)]
-    for (fc, v) in leaves(sel):
-        out.append((site + [(text(a_), tr) for (a_, tr) in fc], base, v))
+    for (fc, v) in leaves(canon(lift_ifs(whole))):
+        facts = [(text(a_), tr) for (a_, tr) in fc]
+        dead = False
+        for (g_, (_g0, tr)) in zip(v.elts[2:], guards):
+            if isinstance(g_, ast.Constant) and isinstance(g_.value, bool):
+                dead = dead or (g_.value != tr)
+                continue
+            facts += [(text(a2), t2) for (a2, t2) in nnf_atoms(g_, tr)]
+        if dead or not consistent(facts):
+            continue
+        s_ = v.elts[1]
+        if is_call(s_, '<slice>'):
+            s_ = ast.Slice(*[None if is_const(x, None) else x for x in s_.args])
+        out.append((facts, text(v.elts[0]), s_))
     return out
 
 
@@ -301,10 +311,34 @@ def r2_get_set_symmetry(R) -> None:
                                 where=s.where(n))
     R.check(seen['slice'], s.q, 'set-slice', 'a label slice writes series[start:stop:step]', 'no store through series[start:stop:step] for label slices', where=s.fi.where)
     R.check(seen['loc'], s.q, 'set-label', 'a single label writes series[position]', 'no store through series[position] for single labels', where=s.fi.where)
-    # non-tuple path: whole array
-    R.check(any(is_self_call(x, '__setattr__') and [text(a) for a in x.args] == [keys_, val] for x in ast.walk(s.fi.node)), s.q, 'set-whole',
+    # non-tuple path: whole array (read on gated values: the key may have been unpacked or re-packed on the way)
+    def whole(f_, se_, key_, want_attr, want_args) -> bool:
+        from fsa.gated import canon, consistent, leaves, lift_ifs
+        from fsa.match import nnf_atoms
+        for n in f_.cfg.nodes:
+            if n.ast is None or n.kind != 'stmt':
+                continue
+            for x in ast.walk(n.ast):
+                if is_self_call(x, want_attr) and len(x.args) == len(want_args):
+                    guards = [(canon(se_.value(n.ast, a_)), tr) for (a_, tr, _tn) in f_.guard_atoms(n.id)]
+                    tup = ast.Tuple(elts=[canon(se_.value(n.ast, a_)) for a_ in x.args] + [g_ for (g_, _t) in guards], ctx=ast.Load())
+                    for (fc, v) in leaves(canon(lift_ifs(tup))):
+                        facts = [(text(a_), tr) for (a_, tr) in fc]
+                        dead = False
+                        for (g_, (_g0, tr)) in zip(v.elts[len(x.args):], guards):
+                            if isinstance(g_, ast.Constant) and isinstance(g_.value, bool):
+                                dead = dead or g_.value != tr
+                            else:
+                                facts += [(text(a2), t2) for (a2, t2) in nnf_atoms(g_, tr)]
+                        if dead or not consistent(facts):
+                            continue
+                        if [text(e_) for e_ in v.elts[:len(x.args)]] == want_args and ((f'isinstance({key_}, str)', True) in facts or (f'isinstance({key_}, tuple)', False) in facts):
+                            return True
+        return False
+
+    R.check(whole(s, ses, keys_, '__setattr__', [keys_, val]), s.q, 'set-whole',
             'a plain name key replaces the whole series through __setattr__', '__setitem__(name, value) does not delegate to __setattr__(key, value)', where=s.fi.where)
-    R.check(any(is_self_call(x, '__getattr__') and [text(a) for a in x.args] == [keyg] for x in ast.walk(g.fi.node)), g.q, 'get-whole',
+    R.check(whole(g, seg, keyg, '__getattr__', [keyg]), g.q, 'get-whole',
             'a plain name key returns the whole series', '__getitem__(name) does not return __getattr__(key)', where=g.fi.where)
     for f in (g, s):
         ks = f.raises('KeyError')
